@@ -12,6 +12,55 @@ COMMON_NOTE = ("Trusted base: Lean 4.33 kernel; axioms ⊆ {propext, Classical.c
                "by exact-float inputs or bounded by a tolerance. ")
 
 CLAIMS = {
+    'C11': dict(
+        text="Theorems (Props/C11.lean, 20, none partial), for every well-formed forest, method, max_dist, min_size and mask: healing keeps "
+             "ids and coordinates, keeps every edge, adds exactly one edge per merged fragment pair, gives a single tree when unlimited, every "
+             "bridging edge joins allowed nodes and is strictly shorter than max_dist; the result is a well-formed forest and the bridging "
+             "edges are a spanning forest of the fragment quotient graph; MINIMAL TOTAL LENGTH (Kruskal optimality via the matroid rank "
+             "lemma, for every monotone weight and against arbitrary allowed connections); rewire yields a well-formed forest for any edge "
+             "list and realises acyclic lists exactly; fragments partition the nodes (same fragment ⇔ same root ⇔ connected) and breaking "
+             "loses no edge; the stitch remap gives unique ids, preserves each input under one injective map, remaps parents, connectors and "
+             "tags consistently, and the combined table is well-formed. Tie: exact correspondence of heal_skeleton / break_fragments / "
+             "drop_fluff / stitch_skeletons / combine_neurons (default, igraph, networkx) with the model on tie-free lattice inputs; the Lean "
+             "checker healOKB on navis' own output; minimality also tested by exhaustive spanning-forest enumeration (≤ 6 fragments).",
+        note="Squared integer distances stand in for Euclidean lengths; inputs with equal cross-fragment distances are rejected (kd-tree tie-breaking "
+             "not modelled); parent direction of non-main remaining trees after partial healing is arbitrary in navis (undirected edges compared); "
+             "pykdtree / networkx / pandas primitives trusted. Two open findings (tag names remapped instead of tagged ids; node-list method ignored).",
+        technique="Lean 4 proof (Kruskal optimality, spanning-forest invariants, id-remap injectivity) + exact correspondence",
+        ref="§5 C11"),
+    'C17': dict(
+        text="Theorems (Props/C17.lean, 25): the Strahler recurrence holds at every node, roots included, for both methods (fuel independence of "
+             "the structural recursion on well-formed forests), has a unique solution (checker soundness), index ≥ 1, parent ≥ child, ignored "
+             "twigs take the index of the first branch point or root above them; synapse flow centrality (total−distal)·distal with per-tree "
+             "totals EQUALS the number of post→pre pairs whose explicit tree path runs through the node on its descending (centrifugal) or "
+             "ascending (centripetal) leg, `sum` adds both, forks take the largest child's value (full, not partial); leaf-flow formula and "
+             "bending-flow sum counted as pairs (partial: as written); chord² ≤ arc² for every small segment with equality on straight integer "
+             "chains; the segregation index equals 0 / 1 in the forced cases and lies in [0,1] for every nonnegative concave entropy function. "
+             "Tie: per-node equality of strahler_index, synapse_flow_centrality, flow_centrality, bending_flow with the model on random and "
+             "exhaustive forests under fastcore, igraph and networkx; Lean checkers strahlerOKB / sfcOKB on navis' own columns; segregation, "
+             "tortuosity and segment_analysis oracles.",
+        note="The logarithmic entropy is not formalised ([0,1] bound is a theorem for abstract concave H only); Euclidean edge lengths validated on "
+             "integer-length edges; flow_centrality and bending_flow are modelled as written; navis-fastcore is a third implementation. 11 open "
+             "findings (segment_analysis broken under pandas 3, fastcore ignored twigs keep 0, Python flow on forests / forking roots, crashes "
+             "with one connector kind, flow_centrality on terminal twigs, …).",
+        technique="Lean 4 proof (Strahler fuel independence + uniqueness, flow = path count) + per-node differential correspondence",
+        ref="§5 C17"),
+    'C18': dict(
+        text="Theorems (Props/C18.lean, 37): exact point membership for solids given as CSG programs over integer boxes (union, difference, "
+             "nested / disjoint shells, voxel sets) and for convex polytopes with integer face planes, invariant under every integer pose, "
+             "half-integer query points never on a surface; for EVERY inside test and every skeleton with unique node ids, in_volume IN and OUT "
+             "partition the nodes and (connectors on existing nodes) the connectors, each part carrying exactly its own connectors; same for "
+             "Dotprops unconditionally and for meshes without straddling faces (partial; counter-example proved); a dict / list of volumes "
+             "returns under each name, in any order, exactly the single-volume answer; intersection_matrix cells follow; snap returns a true "
+             "argmin of the squared distance with that distance, the id not the row, uniquely so for a unique nearest neighbour; run-time "
+             "checkers sound. Tie: navis in_volume (ncollpyde, every n_rays; scipy hull on convex volumes) against the exact model on generated "
+             "watertight meshes (box complexes incl. concave / nested, polytopes; integer poses); IN/OUT pruning of TreeNeuron / Dotprops / "
+             "MeshNeuron; dict/list of volumes; intersection_matrix; all snap variants.",
+        note="The ray caster (ncollpyde) is external: its agreement with exact membership is TESTED, not proved; pyoctree is not installed; snap "
+             "compared on unique nearest neighbours only; mesh generation and trimesh watertightness checks are trusted harness code. Three open "
+             "findings (MeshNeuron.snap(to='connectors'); straddling faces lose vertices; stale vertex_id).",
+        technique="Lean 4 proof (IN/OUT partition for any inside test, CSG membership, argmin) + exact correspondence on watertight meshes",
+        ref="§5 C18"),
     'C03': dict(
         text="Theorems (Props/C03.lean, 25, none partial) over a heap model with object identity, shallow per-attribute copy, the networkx view "
              "alias, the stale-copy branch, @lock_neuron and the map_neuronlist list swap: for every store, receiver and body respecting "
@@ -282,7 +331,7 @@ def main():
             na.append({'property_id': pid, 'reason': NOT_YET})
     m = {
         'version': 1,
-        'setup_cmd': 'cd lean && lake build NavisModel navisdrv',
+        'setup_cmd': '/venv/bin/python tools/regen.py && cd lean && lake build NavisModel navisdrv',
         'hooks': {
             'guard': 'NAVIS_VERIF',
             'enable': "no source hooks are needed: checks import /repo's working tree in-process (editable install) and assign module "
